@@ -278,3 +278,9 @@ example (P : Prims) (O : OutPrims) :
   (include_compile_err_located P O { path := [100, 47, 116] } ⟨fun _ => .content [10, 123, 123, 32, 49, 32, 124, 32, 125, 125], fun _ => none⟩
     0 4 [34, 102, 34] ⟨[], {}⟩ (.lit (.str [102])) [102] [10, 123, 123, 32, 49, 32, 124, 32, 125, 125] ⟨5, true, .syntax, .byCause⟩
     rfl rfl rfl rfl).2 (Or.inl (by decide))
+/-- a read error that is not not-exist: the error is located at the tag as well -/
+example (P : Prims) (O : OutPrims) :
+    renderNode (mkCtx P O { path := [100, 47, 116] } ⟨fun _ => .otherError, fun _ => none⟩ 1) (.incl 4 [34, 102, 34]) ⟨[], {}⟩ =
+      .fail (.located ⟨4, true, .io, .byCause⟩) :=
+  include_read_err_located P O { path := [100, 47, 116] } ⟨fun _ => .otherError, fun _ => none⟩ 0 4 [34, 102, 34] ⟨[], {}⟩
+    (.lit (.str [102])) [102] rfl rfl rfl
